@@ -228,7 +228,7 @@ func init() {
 					}
 					// writer calls after which L may be stale
 					for _, c := range Calls(fn) {
-						callee := c.Common().StaticCallee()
+						callee := Devirt(c.Common())
 						if callee == nil || !writes[L.rk.typ][callee] {
 							continue
 						}
